@@ -100,18 +100,22 @@ def advanceToNextNamespace (p : RtParser) : Out (RtParser × Bool) := do
   let flags ← loadFlags p.buf ns
   pure ({ p with ns := ns, flags := flags }, ns != p.ns)
 
+/-- the second half of `advance_field()`: the current namespace is exhausted, try the next one -/
+def nextNamespaceField (p1 : RtParser) : Out (RtParser × Bool) := do
+  let (p2, moved) ← advanceToNextNamespace p1
+  if !moved then pure ({ p2 with bit := rtMax }, false)
+  else
+    match advanceToNextField { p2 with bit := 0 } with
+    | (p3, true) => pure (p3, true)
+    | (p3, false) => pure ({ p3 with bit := rtMax }, false)
+
 /-- `advance_field()` -/
 def advanceField (p : RtParser) : Out (RtParser × Bool) :=
   if p.noBuf || p.bit == rtMax then pure (p, false)
   else
-    let (p1, ok) := skipCurrentField p
-    if ok then pure (p1, true)
-    else do
-      let (p2, moved) ← advanceToNextNamespace p1
-      if !moved then pure ({ p2 with bit := rtMax }, false)
-      else
-        let (p3, ok3) := advanceToNextField { p2 with bit := 0 }
-        if !ok3 then pure ({ p3 with bit := rtMax }, false) else pure (p3, true)
+    match skipCurrentField p with
+    | (p1, true) => pure (p1, true)
+    | (p1, false) => nextNamespaceField p1
 
 /-- `has_fields()` -/
 def hasFields (p : RtParser) : Bool := p.bit != rtMax && p.ptr < p.buf.length
@@ -198,8 +202,8 @@ def trl (r : RadioTap) : Nat := match trlOut r with | .ok n => n | _ => 0
 /-- `RadioTap::write_serialization` -/
 def write (cx : Ctx) (r : RadioTap) (region : Bytes) : Out Bytes := do
   let hdr := patch r.hdr 2 (OutCursor.leBytes 2 (hdrSize r))
-  let o ← (OutCursor.ofRegion region).write hdr
-  let o ← o.write r.payload
+  -- stream.write(header_); stream.write(options_payload_.begin(), options_payload_.end())
+  let o ← Dot11.writeAll (OutCursor.ofRegion region) [hdr, r.payload]
   let t ← trlOut r
   if t > 0 && !cx.inners.isEmpty then do
     -- Utils::crc32(stream.pointer(), inner_pdu()->size()) reads through the raw pointer
